@@ -25,6 +25,8 @@ type HistItem struct {
 	Pkg    *PkgDef  `json:"pkg,omitempty"` // package variant (nil = scenario package)
 	Evict  []string `json:"evict,omitempty"`
 	EvictN int      `json:"evict_n,omitempty"` // evict by hash: permille of objects
+	// DropOutputs: every .output file is deleted after this request (never removed by the minimiser)
+	DropOutputs bool `json:"drop_outputs,omitempty"`
 	EvictK string   `json:"evict_kind,omitempty"`
 	// resumption (C04): start from the cursor of the ResumeK-th eligible (final-block) data message of request ResumeOf (1-based)
 	ResumeOf int  `json:"resume_of,omitempty"`
@@ -205,6 +207,9 @@ func (x *Exec) evict(idx int, h *HistItem) int {
 		if h.EvictN > 0 && evictMatch(h.EvictK, k) && int(H(x.S.Seed, "evict", fmt.Sprint(idx), k)%1000) < h.EvictN {
 			drop = true
 		}
+		if h.DropOutputs && strings.HasSuffix(k, ".output") {
+			drop = true
+		}
 		if drop {
 			x.Disk.Delete(k)
 			n++
@@ -369,6 +374,7 @@ func RunScenario(t *testing.T, s *Scenario, chk Checker, keepLog bool) (rep *Run
 					}
 				}
 			}
+			probeLeftovers(x, h)
 			res := env.RunRequest(pkg, &h.Req, nil)
 			x.Results = append(x.Results, res)
 			dumpMsgs(res)
@@ -466,4 +472,26 @@ func orderPairs(log []string) []string {
 	}
 	sort.Strings(out)
 	return out
+}
+
+// probeLeftovers counts what kind of leftovers a request starts on (reach measurement only).
+func probeLeftovers(x *Exec, h *HistItem) {
+	seg := h.Req.SegSize
+	if seg == 0 {
+		return
+	}
+	for _, k := range x.Disk.Keys() {
+		if !strings.HasSuffix(k, ".partial") {
+			continue
+		}
+		base := k[strings.LastIndex(k, "/")+1:]
+		var end, start uint64
+		if _, err := fmt.Sscanf(base, "%d-%d.partial", &end, &start); err != nil {
+			continue
+		}
+		x.Probes["partial_left_before_request"]++
+		if end%seg != 0 {
+			x.Probes["offboundary_partial_left_before_request"]++
+		}
+	}
 }
